@@ -322,5 +322,11 @@ func runSessionHonest(rc *harness.RunCtx) harness.Outcome {
 		}
 	}
 	sample := map[string]any{"workload": "session-runner", "config": class, "ids": pr.ids, "trace_head": head(pr.cl.Trace, 12), "steps": pr.cl.Stats.Steps}
-	return harness.Outcome{Violation: viol, Class: class, NonTrivial: pr.nontrivial(), Trace: pr.cl.Trace, Stats: pr.cl.Stats, Probes: pr.probes, Sample: sample}
+	dig := ""
+	if viol == nil {
+		if o, _ := pr.tasks[fmt.Sprintf("s1@%d", ids[0])].Result(); o != nil {
+			dig = fmt.Sprintf("%x", o.(*session.Context).SessionID())
+		}
+	}
+	return harness.Outcome{Violation: viol, Class: class, NonTrivial: pr.nontrivial(), Trace: pr.cl.Trace, Stats: pr.cl.Stats, Probes: pr.probes, Sample: sample, Digest: dig}
 }
